@@ -61,6 +61,30 @@ type callRec struct {
 	sub  Value // replacement returned to the executor (cut symbol), if any
 }
 
+// execStage symbolically executes the function of a stage, recording its calls (cut points).
+func (cc *CheckCtx) execStage(s stage, suffix string, freshBase int) (*FuncRun, *stageCtx) {
+	sc := &stageCtx{cc: cc, rp: cc.W.Contr[s.Pkg].Repr, calls: map[string][]callRec{}}
+	opts := s.Opts
+	opts.Suffix = suffix
+	opts.FreshBase = freshBase
+	userHook := opts.OnCall
+	opts.OnCall = func(ex *Exec, call *ssa.Call, name string, ord int, res Value, pc *Term, st *State) Value {
+		rec := callRec{ord: ord, res: res, pc: pc, call: call}
+		if userHook != nil {
+			if r := userHook(ex, call, name, ord, res, pc, st); r != nil {
+				rec.sub = r
+				sc.calls[name] = append(sc.calls[name], rec)
+				return r
+			}
+		}
+		sc.calls[name] = append(sc.calls[name], rec)
+		return res
+	}
+	fr := cc.W.RunFunc(s.Pkg, s.Func, opts)
+	sc.spec = cc.W.Specs[s.Pkg]
+	return fr, sc
+}
+
 func (cc *CheckCtx) runStage(s stage) {
 	if s.Tier == "thorough" && cc.Tier != "thorough" {
 		cc.Notes = append(cc.Notes, fmt.Sprintf("stage %s (%s) is part of the thorough tier only", s.Name, s.Space))
